@@ -136,6 +136,12 @@ def splitNetloc (s : Str) : Str × Str :=
   (s.takeWhile (fun c => c ≠ cSlash ∧ c ≠ cQuest ∧ c ≠ cHash),
    s.dropWhile (fun c => c ≠ cSlash ∧ c ≠ cQuest ∧ c ≠ cHash))
 
+/-- `if url[:2] == '//': netloc, url = _splitnetloc(url, 2)` (`parse.py:493-494`) -/
+def netlocOf (url : Str) : Str × Str :=
+  match url with
+  | 0x2F :: 0x2F :: rest => splitNetloc rest
+  | _ => ([], url)
+
 /-- the scheme test of `urlsplit` (`parse.py:486-492`): `some (scheme, rest)` when a scheme is split off -/
 def splitScheme (url : Str) : Option (Str × Str) :=
   match splitFirst cColon url with
@@ -156,9 +162,7 @@ def urlsplit (url0 : Str) (dflt : Str := []) : Except Err Split :=
     | none => (dflt, url)
   let scheme := sr.1
   let url := sr.2
-  let nr := match url with
-    | 0x2F :: 0x2F :: rest => splitNetloc rest
-    | _ => ([], url)
+  let nr := netlocOf url
   let netloc := nr.1
   let url := nr.2
   -- bracketed hosts are validated with `ipaddress`, non-ASCII hosts with NFKC: not modelled
